@@ -15,6 +15,7 @@ import (
 	"time"
 
 	"github.com/anishathalye/porcupine"
+	eth2p0 "github.com/attestantio/go-eth2-client/spec/phase0"
 
 	"github.com/obolnetwork/charon/core"
 	"github.com/obolnetwork/charon/core/aggsigdb"
@@ -68,11 +69,29 @@ type hist struct {
 func (h *hist) stamp() int64 { h.mu.Lock(); defer h.mu.Unlock(); h.seq++; return h.seq }
 func (h *hist) add(o *op)    { h.mu.Lock(); h.ops = append(h.ops, o); h.mu.Unlock() }
 
+// A value id is (signature id << 1 | content variant): two values may carry the same signature
+// bytes and still differ in content, which is a conflict like any other.
 func mkValue(k key, vid uint64) core.SignedData {
+	sig, variant := vid>>1, vid&1
 	if k.duty.Type == core.DutySyncContribution {
-		return simdata.SyncContribution(k.duty.Slot, k.subcomm, vid)
+		c := simdata.SyncContribution(k.duty.Slot, k.subcomm, sig)
+		c.Message.AggregatorIndex += eth2p0.ValidatorIndex(variant)
+		return c
 	}
-	return simdata.Randao(k.duty.Slot/32, vid)
+	return simdata.Randao(k.duty.Slot/32+variant, sig)
+}
+
+// valueID recovers the id of a returned value.
+func valueID(k key, d core.SignedData) uint64 {
+	sig := simdata.SigID(d.Signature())
+	var variant uint64
+	switch v := d.(type) {
+	case core.SignedRandao:
+		variant = uint64(v.SignedEpoch.Epoch) - k.duty.Slot/32
+	case core.SignedSyncContributionAndProof:
+		variant = uint64(v.Message.AggregatorIndex) - 7
+	}
+	return sig<<1 | variant&1
 }
 
 func TestSim(t *testing.T) {
@@ -168,7 +187,7 @@ func body(c *kernel.Ctx) {
 					if err != nil {
 						o.err = classify(err)
 					} else {
-						o.vid = simdata.SigID(data.Signature())
+						o.vid = valueID(k, data)
 						c.Progress()
 					}
 					o.ret = h.stamp()
@@ -190,10 +209,15 @@ func body(c *kernel.Ctx) {
 						vidMu.Lock()
 						prev := storedVids[kk]
 						vidMu.Unlock()
-						if len(prev) > 0 && verifrt.Intn("w", 2) == 0 {
+						switch {
+						case len(prev) > 0 && verifrt.Intn("w", 2) == 0:
 							vid = prev[verifrt.Intn("w", len(prev))] // equal (or conflicting, if it lost) re-store
-						} else {
-							vid = newVid()
+							if verifrt.Intn("w", 4) == 3 {
+								vid ^= 1 // same signature bytes, different content
+								verifrt.Probe("same-signature-different-content")
+							}
+						default:
+							vid = newVid() << 1
 						}
 						vidMu.Lock()
 						storedVids[kk] = append(storedVids[kk], vid)
